@@ -220,6 +220,7 @@ def run_shard(ctx):
         lay = gen.Layout(rng, noise=rng.choice([0.0, 0.3]), breaks=rng.choice([0.0, 0.3]), comments=rng.choice([0.0, 0.3]))
         script = gen.render_program(prog, lay)
         one_program(ctx, script, rng, [{}] + rng.sample(all_settings[1:], 2))
+    stateful_converter(ctx)
     # symbols without an equation contribute variables but no code
     import fsic
     from fsic.parser import Symbol, Type
@@ -239,6 +240,39 @@ def run_shard(ctx):
     r = E(range(3)).solve()
     if E.NAMES != [] or not all(r[2]) or len(r[2]) != 3:
         ctx.violation('empty-model-does-not-solve', f'empty symbol list: NAMES {E.NAMES}, solve -> {r}', {'kind': 'empty'})
+
+
+def stateful_converter(ctx):
+    """One converter object reused across builds while its state changes: every build must insert the converter's
+    *current* output, and build_model / build_model_definition / CODE must keep agreeing."""
+    import fsic
+
+    class Tagging:
+        def __init__(self):
+            self.tag = 'A'
+            self.calls = 0
+
+        def __call__(self, s):
+            self.calls += 1
+            return f'# tag {self.tag}\n{s.code}\n_ = {self.tag!r}'
+
+    symbols = fsic.parse_model('Y = X + 1\nZ = Y[-1] * 2')
+    conv = Tagging()
+    for rep, tag in enumerate(['A', 'B', 'B', 'C', 'A']):
+        conv.tag = tag
+        before = conv.calls
+        case = {'kind': 'stateful-converter', 'tags_so_far': rep, 'tag': tag}
+        ctx.evaluation(('stateful-converter', rep, tag), nontrivial=True)
+        for typed in (True, False):
+            M = fsic.build_model(symbols, converter=conv, with_type_hints=typed)
+            text = fsic.build_model_definition(symbols, converter=conv, with_type_hints=typed)
+            ctx.count('converter_calls_observed', conv.calls - before)
+            if M.CODE != text or f'# tag {tag}' not in M.CODE or any(f'# tag {o}' in M.CODE for o in 'ABC' if o != tag):
+                ctx.violation('stale-converter-output', f'build {rep} with converter state {tag!r}: CODE does not hold the converter\'s current output (or differs from build_model_definition)', case)
+                return
+        if conv.calls - before != 8:
+            ctx.violation('converter-calls', f'build {rep}: converter called {conv.calls - before} times for 2 equations x 2 builds x 2 templates, expected 8', case)
+            return
 
 
 def replay(ctx, case):
